@@ -31,8 +31,11 @@ def cand(base, k):
 ECHO = [""]        # question section of the responses of the event being generated (a responder may echo the question it answers)
 
 
+SRC = ["n"]         # source address of the messages of the event being generated (a peer on this very machine is a peer too)
+
+
 def resp(records):
-    return "DELIVER n|0|0|1|0|%s|%s" % (ECHO[0], ";".join(records))
+    return "DELIVER %s|0|0|1|0|%s|%s" % (SRC[0], ECHO[0], ";".join(records))
 
 
 def query_with(records):
@@ -81,12 +84,21 @@ def gen_schedule(rng, base, n):
     for _ in range(n):
         G_TTL[0] = rng.choice([120, 120, 120, 0, 0, 4500, 1])
         ECHO[0] = "%s,255,0" % hexs(cand(base, m.k)) if rng.random() < 0.2 else ""
+        SRC[0] = rng.choice(["n", "n", "4:2130706433", "6:" + "00" * 15 + "01", "4:3232235777", "4:3221225986"])
         if rng.random() < 0.5:
             apply(m, rng.choice(["conflict", "conflict", "conflict2", "earlier", "later", "othertype", "query"]), lines, base)
         else:
             t = m.deadline + rng.choice([-2000, -1001, -1, -1, 0, 0, 1, 2000]) if rng.random() < 0.8 else m.now + rng.randrange(0, 5000)
             apply(m, (rng.choice(["ADV", "ADV", "ADVB", "LATE"]), max(t, m.now)), lines, base)
     apply(m, ("ADV", m.deadline + 5000), lines, base)
+    if rng.random() < 0.15:
+        # a bystander prober (for another name) on the same server comes and goes
+        out = []
+        for l in lines:
+            out.append(l)
+            if not l.startswith("NEW") and rng.random() < 0.3:
+                out.append("GHOST prober " + rec("bystander" + TAIL, ttl=120))
+        lines = out
     return lines
 
 
